@@ -61,6 +61,7 @@ type Frame struct {
 	freeVars   map[*ssa.FreeVar]Val
 	closures   map[*ssa.MakeClosure]bool
 	ranges     map[*ssa.Range]*HeapState
+	cells      map[string][]*ssa.Alloc
 }
 
 func (g *Gen) newFrame(fn *ssa.Function, sfx string, top bool) *Frame {
@@ -154,9 +155,14 @@ func (f *Frame) analyse() {
 		f.order = append(f.order, post[i])
 	}
 	// names
+	f.cells = map[string][]*ssa.Alloc{}
 	for _, b := range fn.Blocks {
 		for i, in := range b.Instrs {
 			switch in := in.(type) {
+			case *ssa.Alloc:
+				if in.Comment != "" && in.Comment != "complit" && in.Comment != "varargs" && in.Comment != "slicelit" && in.Comment != "makeslice" {
+					f.cells[in.Comment] = append(f.cells[in.Comment], in)
+				}
 			case *ssa.Phi:
 				if in.Comment != "" {
 					f.names[in.Comment] = append(f.names[in.Comment], nameDef{val: in, block: b, idx: i})
@@ -245,6 +251,9 @@ func (g *Gen) callMods(c *ssa.CallCommon, ms *ModSet) {
 		if g.isIntrinsic(cv) {
 			return
 		}
+		if fc := g.P.ContractFor(cv); fc != nil && fc.Opts["pure"] != "" {
+			return
+		}
 		ms.add(g.P.ModSetOf(cv))
 	case *ssa.MakeClosure:
 		if cf, ok := cv.Fn.(*ssa.Function); ok {
@@ -266,6 +275,23 @@ func (f *Frame) resolveName(name string, b *ssa.BasicBlock) (nameDef, bool) {
 // resolveNameAt: like resolveName, but at instruction index upTo of block b (definitions earlier in b count).
 func (f *Frame) resolveNameAt(name string, b *ssa.BasicBlock, upTo int) (nameDef, bool) {
 	var best *nameDef
+	// a variable that lives in a cell (captured by a closure or address-taken): its current value is the
+	// content of the cell in the current heap, not an earlier load
+	if b != nil {
+		for _, al := range f.cells[name] {
+			ab := al.Block()
+			if ab == b && f.instrIdx[al] >= upTo && upTo >= 0 {
+				continue
+			}
+			if ab != b && !ab.Dominates(b) {
+				continue
+			}
+			if ab == b && upTo < 0 {
+				continue
+			}
+			return nameDef{val: al, block: ab, idx: f.instrIdx[al], isAddr: true}, true
+		}
+	}
 	cands := f.names[name]
 	for i := range cands {
 		c := &cands[i]
@@ -417,6 +443,26 @@ func (f *Frame) Walk(args []Val, heap *HeapState, reach string) {
 		for _, s := range b.Succs {
 			if f.backEdge[[2]int{b.Index, s.Index}] {
 				f.closeLoop(f.loopAt[s], b)
+			}
+		}
+		// loop exits leaving this block
+		if f.top {
+			for _, lp := range f.loops {
+				if !lp.Blocks[b] {
+					continue
+				}
+				for _, s := range b.Succs {
+					if lp.Blocks[s] {
+						continue
+					}
+					for i, c := range f.loopClauses(lp, "exit") {
+						env := f.envAt(b, f.heapOut[b], nil)
+						env.upTo = len(b.Instrs)
+						goal := env.trBool(c.E)
+						f.g.addOblig(&Oblig{Name: f.obName(fmt.Sprintf("loop%d.exit", lp.Ordinal), c, i), Kind: "loop-exit",
+							Goal: implies(f.edgeCond(b, s), goal), Pos: f.pos(lastPos(b)), Text: c.Text, ClauseProps: c.Props})
+					}
+				}
 			}
 		}
 	}
